@@ -111,15 +111,15 @@ def chunks(tier, seed):
         out.append({"kind": "csv_enum", "shard": k, "of": nsh, "key": "csvenum%d" % k, "reps": 1 if q else 3,
                     "both_readers": not q})
     for k in range(4):
-        out.append({"kind": "csv_rand", "key": "csvrand%d" % k, "n": 400 if q else 8000})
+        out.append({"kind": "csv_rand", "key": "csvrand%d" % k, "n": 800 if q else 8000})
     for k in range(4):
-        out.append({"kind": "gpx", "key": "gpx%d" % k, "n": 160 if q else 3000})
+        out.append({"kind": "gpx", "key": "gpx%d" % k, "n": 300 if q else 3000})
     for k in range(4):
-        out.append({"kind": "net", "key": "net%d" % k, "n": 160 if q else 3000})
+        out.append({"kind": "net", "key": "net%d" % k, "n": 300 if q else 3000})
     for k in range(2):
-        out.append({"kind": "wkt", "key": "wkt%d" % k, "n": 300 if q else 5000})
+        out.append({"kind": "wkt", "key": "wkt%d" % k, "n": 500 if q else 5000})
     for k in range(8):
-        out.append({"kind": "seq", "key": "seq%d" % k, "n": 70 if q else 1200})
+        out.append({"kind": "seq", "key": "seq%d" % k, "n": 150 if q else 1200})
     return out
 
 
